@@ -15,6 +15,8 @@ def run(c):
     vlib.table_check(c, 'Wire', 'Wire.cfg', 'c08', workers=1, tlc_timeout=600, harness_timeout=3000)
     res = vlib.run_harness(['recvcorrupt'], timeout=600, crash_prop='C08')
     vlib.absorb(c, res)
+    # the merge side: a valid snapshot with millions of keyless entries through the real LoadOnce (child process)
+    vlib.absorb(c, vlib.run_harness(['hostile-merge'], timeout=600))
     c.assumptions += ['time and memory bounds are checked by watchdog (10 s) and allocation ceiling (96 MB + 200 x input), not proved']
     c.extra['rule'] = 'hostile rows of the specification + exhaustive single-position mutations of small valid messages + seeded garbage'
 
